@@ -2,6 +2,7 @@ package rules
 
 import (
 	"fmt"
+	"go/token"
 	"sort"
 	"strings"
 
@@ -63,7 +64,7 @@ func mptEntries(r *engine.Run, rule string) []*ssa.Function {
 func runC16(r *engine.Run) {
 	r.Rule("LOCK-mpt", "guarded-by discipline over every function reachable from the trie operations named in the property and from the exported methods of MemoryNodeDB/LevelNodeDB/ChangeCollector: root, deleteNodes, the stores' maps and level links and the collector's maps are accessed only with their owner's mutex held in the required mode (interprocedural must-lockset; writes need the write lock), constructor-only fields are never rewritten; `go` bodies start with nothing held")
 	r.Rule("LOCK-walk", "every node fetch of the trie (getNode) that is reachable from the operations that start at the trie's own root happens with the trie's mutex held (read or write): a walk holds the lock from reading the root to the last node, because writers physically remove replaced nodes. Named exception: IterateFrom starts from a node key supplied by the caller, reads no guarded state and is synchronised by its caller")
-	r.Rule("LOCK-snapshot", "SaveChanges takes its snapshot (ChangeCollector.Clone) with the trie's read lock held and writes from that snapshot, never from the live collector: one update is a sequence of AddChange calls that is atomic only under the trie lock; ChangeCollector.Clone copies every node it puts into the snapshot with CloneNode()")
+	r.Rule("LOCK-snapshot", "SaveChanges takes its snapshot (ChangeCollector.Clone) with the trie's read lock held and writes from that snapshot, never from the live collector: one update is a sequence of AddChange calls that is atomic only under the trie lock; ChangeCollector.Clone copies every node it puts into the snapshot with CloneNode(); MerklePatriciaTrie.GetChanges reads the root, the changes and the deletes while it holds the trie's lock itself (one instant, not three separately locked getters)")
 	r.Rule("ORDER-critical", "Insert, Delete, MergeChanges and MergeDB acquire the trie's write lock before the first read of the root and keep it (deferred unlock) until after the last root update: each mutating operation is a single critical section")
 	r.Rule("PAIR-unlock", "every Lock/RLock of a mutex is followed on every path to a return of the acquiring function by the matching Unlock/RUnlock on the same mutex or by a deferred one registered on the path: no operation returns with the lock held (every later operation on the object would block)")
 	r.NotDec = append(r.NotDec, "linearizability of histories (needs executions)", "SetVersion concurrent with operations (outside the property's operation set)")
@@ -76,6 +77,7 @@ func runC16(r *engine.Run) {
 	lockWalk(r, w)
 	cloneUnderLock(r, w)
 	cloneSnapshotDeep(r, "LOCK-snapshot")
+	lockOneSnapshot(r, "LOCK-snapshot")
 	pairUnlock(r, "PAIR-unlock", funcsOfPkg(r, pkgUtil), 10)
 }
 
@@ -302,5 +304,45 @@ func cloneSnapshotDeep(r *engine.Run, rule string) {
 	})
 	if n < 3 {
 		r.Anchor(rule, fmt.Errorf("unresolved anchor: %d node copies in ChangeCollector.Clone", n))
+	}
+}
+
+// lockOneSnapshot: the trie's change-set getters read everything they return
+// during one continuous hold of the trie's lock: in MerklePatriciaTrie.GetChanges
+// the root, the changes and the deletes are read while mpt.mutex is held by
+// GetChanges itself (not by three getters that each lock on their own), so the
+// triple belongs to one instant.
+func lockOneSnapshot(r *engine.Run, rule string) {
+	f := r.Fn(rule, pkgUtil, "MerklePatriciaTrie", "GetChanges")
+	if f == nil {
+		return
+	}
+	fl := engine.LocksIn(f)
+	n := 0
+	o := ord{}
+	check := func(in ssa.Instruction, what string) {
+		n++
+		held := fl.At[in]
+		ok := held != nil && held["MerklePatriciaTrie.mutex"] >= engine.ModeR
+		r.Check(ok, rule, o.next(fn(f)+"|"+what), r.P.Pos(in.Pos()), "read while GetChanges itself holds the trie's lock",
+			"GetChanges reads "+what+" without holding the trie's lock across all of its reads: root, changes and deletes can come from different instants (or from the middle of an update), so the change set does not belong to the root it is returned with")
+	}
+	engine.Instrs(f, func(in ssa.Instruction) {
+		switch x := in.(type) {
+		case *ssa.Call:
+			if x.Call.IsInvoke() && (x.Call.Method.Name() == "GetChanges" || x.Call.Method.Name() == "GetDeletes") {
+				check(x, "the collector's "+x.Call.Method.Name()+"()")
+			}
+			if sc := x.Call.StaticCallee(); sc != nil && recvNamed(sc) == "MerklePatriciaTrie" && sc.Name() == "GetRoot" {
+				check(x, "the root (through GetRoot, which locks on its own)")
+			}
+		case *ssa.UnOp:
+			if fld := fieldLoadOf(x); fld != nil && fld.Name() == "root" && x.Op == token.MUL {
+				check(x, "the root")
+			}
+		}
+	})
+	if n < 3 {
+		r.Anchor(rule, fmt.Errorf("unresolved anchor: %d reads in MerklePatriciaTrie.GetChanges", n))
 	}
 }
